@@ -142,6 +142,7 @@ type c18Stub struct {
 	depth *int
 	seen  *http.Header
 	fail  *error // non-nil target: the network fails with it (as long as it is set)
+	redir *int   // > 0: answer with a redirect (and count down)
 }
 
 func (st *c18Stub) RoundTrip(req *http.Request) (*http.Response, error) {
@@ -154,6 +155,11 @@ func (st *c18Stub) RoundTrip(req *http.Request) (*http.Response, error) {
 	if st.fail != nil && *st.fail != nil {
 		return nil, *st.fail
 	}
+	if st.redir != nil && *st.redir > 0 {
+		*st.redir--
+		return &http.Response{StatusCode: 307, Status: "307 Temporary Redirect", Proto: "HTTP/1.1", ProtoMajor: 1, ProtoMinor: 1,
+			Header: http.Header{"Location": {"/moved"}}, Body: io.NopCloser(bytes.NewReader(nil)), Request: req}, nil
+	}
 	return &http.Response{StatusCode: 200, Status: "200 OK", Proto: "HTTP/1.1", ProtoMajor: 1, ProtoMinor: 1, Header: http.Header{}, Body: io.NopCloser(bytes.NewReader([]byte(`{"v":1}`))), Request: req}, nil
 }
 
@@ -165,6 +171,7 @@ func (sc *c18Scenario) Run(s *simrt.Sim) {
 	depth := 0
 	failAt := -1 // index into the call sequence of this request at which the interceptor fails
 	var netErr error
+	redirects := 0
 	calls := 0
 	errs := make([]error, sc.NIcs)
 	ics := make([]*network.Interceptor, sc.NIcs)
@@ -194,11 +201,11 @@ func (sc *c18Scenario) Run(s *simrt.Sim) {
 	// clients: client 0 may have a nil Transport (then http.DefaultTransport is the stub for this run)
 	clients := make([]*http.Client, sc.NCli)
 	for k := range clients {
-		clients[k] = &http.Client{Transport: &c18Stub{id: k, log: &log, depth: &depth, seen: &seen, fail: &netErr}}
+		clients[k] = &http.Client{Transport: &c18Stub{id: k, log: &log, depth: &depth, seen: &seen, fail: &netErr, redir: &redirects}}
 	}
 	if sc.NilTr {
 		saved := http.DefaultTransport
-		http.DefaultTransport = &c18Stub{id: 0, log: &log, depth: &depth, seen: &seen, fail: &netErr}
+		http.DefaultTransport = &c18Stub{id: 0, log: &log, depth: &depth, seen: &seen, fail: &netErr, redir: &redirects}
 		defer func() { http.DefaultTransport = saved }()
 		clients[0] = &http.Client{}
 	}
@@ -234,7 +241,7 @@ func (sc *c18Scenario) Run(s *simrt.Sim) {
 		apis = append(apis, network.NewSimpleAPIWithSimpleHTTP("http://c18.example.test", sh2))
 		models = append(models, nil)
 	} else if sc.Twin {
-		twinClient := &http.Client{Transport: &c18Stub{id: 50, log: &log, depth: &depth, seen: &seen}}
+		twinClient := &http.Client{Transport: &c18Stub{id: 50, log: &log, depth: &depth, seen: &seen, fail: &netErr, redir: &redirects}}
 		sh2 := network.NewSimpleHTTPWithClientAndInterceptors(twinClient, initial...)
 		shs = append(shs, sh2)
 		apis = append(apis, network.NewSimpleAPIWithSimpleHTTP("http://c18.example.test", sh2))
@@ -334,7 +341,7 @@ func (sc *c18Scenario) Run(s *simrt.Sim) {
 			c := clients[st.Cli]
 			nid := 100 + si
 			h.Do("main", "SwapTransport+SetHTTPClient", st.Cli, func() (interface{}, error) {
-				c.Transport = &c18Stub{id: nid, log: &log, depth: &depth, seen: &seen, fail: &netErr}
+				c.Transport = &c18Stub{id: nid, log: &log, depth: &depth, seen: &seen, fail: &netErr, redir: &redirects}
 				sh.SetHTTPClient(c)
 				return nil, nil
 			})
@@ -345,12 +352,46 @@ func (sc *c18Scenario) Run(s *simrt.Sim) {
 			}
 			// once without a fault, then once per failing position (enumerated)
 			// ... and once with a network failure behind an intact chain (fp == len(model))
-			for fp := -1; fp <= len(model); fp++ {
+			// ... and once with the network answering the first hop with a redirect (fp == len(model)+1):
+			// every hop the transport sees has been through the chain
+			for fp := -1; fp <= len(model)+1; fp++ {
 				log = nil
 				seen = nil
 				calls = 0
 				failAt = fp
 				netErr = nil
+				if fp == len(model)+1 {
+					if st.Verb == "Post" || st.Verb == "Put" || st.Verb == "Patch" {
+						continue // a 307 re-sends the body, which needs GetBody: not the subject here
+					}
+					failAt = -1
+					redirects = 1
+					op, _ := doReq(st.Verb)
+					redirects = 0
+					sc.pairs++
+					if op.Panic != "" {
+						return
+					}
+					var want []string
+					for hop := 0; hop < 2; hop++ {
+						for _, i := range model {
+							want = append(want, fmt.Sprintf("ic%d", i))
+						}
+						want = append(want, "transport")
+					}
+					var got []string
+					for _, e := range log {
+						if strings.HasPrefix(e, "transport") {
+							e = "transport"
+						}
+						got = append(got, e)
+					}
+					sc.probes["redirect-followed"]++
+					if fmt.Sprint(got) != fmt.Sprint(want) {
+						add("chain", "chain-on-redirect-hop", fmt.Sprintf("step %d %s, first hop answered with a redirect: call log %v, want %v (the chain once before every hop the transport sees)", si, st.Verb, log, want))
+					}
+					continue
+				}
 				if fp == len(model) {
 					failAt = -1
 					netErr = fmt.Errorf("network down")
